@@ -390,6 +390,11 @@ class Fn:
                     for it in fs:
                         if it[0].__class__ is tuple and it[0][1] == lk:
                             return (it[1] == v) != pol
+            if isinstance(a, dict) and a.get('k') in ('var', 'mem'):
+                lk = dstr(a)
+                for it in fs:
+                    if it[0].__class__ is tuple and it[0][1] == lk:
+                        return (it[1] != 0) != pol      # truthiness of a known constant
             return False
 
         work = []
